@@ -197,7 +197,10 @@ def load_case(case):
             target[k1][3] = MASSES[(j + 1) % 3]
         rows = []
         for ph in ('climb', 'cruise', 'descent'):
-            rows += target if ph == c['ph'] else r[ph]
+            if ph == c['ph']:
+                rows += target
+            elif not c.get('only'):
+                rows += r[ph]
         try:
             PerformanceModel.from_data(model_data(rows))
             accepted = True
@@ -205,7 +208,7 @@ def load_case(case):
             accepted = False
         if accepted != bool(o['accepted']):
             if accepted:
-                return [(f'incomplete-table-accepted:{c["corr"]}', f'{c["ph"]} sub-table of FL {c["fls"]} with corruption {c["corr"]} (rows {c["r1"]},{c["r2"]}) was accepted at load; specification: refused')]
+                return [(f'incomplete-table-accepted:{c["corr"]}', f'{c["ph"]} sub-table of FL {c["fls"]} with corruption {c["corr"]} (rows {c["r1"]},{c["r2"]}) was accepted at load; specification: refused' + (' (table with this phase only)' if c.get('only') else ''))]
             return [('complete-table-refused', f'complete table FL {c["fls"]} refused at load')]
         return []
     except Exception as e:
